@@ -288,7 +288,11 @@ def _div(a, b):
 
 class Sym:
     __slots__ = ('e',)
-    __hash__ = None
+
+    def __hash__(self):
+        # structural hash of the term (pandas group-by / drop_duplicates on object columns hash first and then compare with ==, which
+        # goes through the path oracle)
+        return self.e.hash()
 
     def __init__(self, e):
         self.e = e
